@@ -65,7 +65,7 @@ def valid_table(table):
     try:
         impl.le.Licensing(impl.table_objs(table))
         return True
-    except ValueError:
+    except (ValueError, impl.le.ExpressionError):
         return False
 
 
